@@ -31,7 +31,7 @@ LEVEL_TEXT = ("Coq theorems over Gallina models of the interface layer. Componen
               "the services after it was added (IpDel after IpAdd of an address the OS has on one entry, in an "
               "iteration without enable/disable calls), and that the last IpAdd/IpDel event of an iteration about an "
               "address is not IpDel when the OS table has the address on an entry enabled throughout the iteration "
-              "(finding C18-del-of-held-address). The daemon model is tied to the Rust by a differential run of the "
+              "(former finding C18-del-of-held-address, repaired by 0f7c6ac). The daemon model is tied to the Rust by a differential run of the "
               "real daemon in the simulated world, with the checker chk_C18 run on the implementation's trace")
 TECHNIQUE = ("machine-checked proof in Coq (selection law by induction over the selection list, bitwise subnet law, "
              "membership characterisations of the cache operations) + model/implementation correspondence on the "
